@@ -68,3 +68,423 @@ def monomial_derivative():
             print('REPLAY: VIOLATION-CONFIRMED the derivative of a factored polynomial is wrong')
             return
     print('REPLAY: not reproduced')
+
+
+def _expect_derivative(function, f, var):
+    """the documented outcome of derivative(f, var): ('raise',) or (shape, dtype, arguments, name of the evaluable target)"""
+    if isinstance(var, str):
+        if var not in f.arguments:
+            return ('raise',)
+        vshape, vdtype = f.arguments[var]
+        vname = var
+    elif isinstance(var, function.Argument):
+        vname, vshape, vdtype = var.name, var.shape, var.dtype
+        if vname in f.arguments and f.arguments[vname] != (vshape, vdtype):
+            return ('raise',)
+    else:
+        return ('raise',)
+    args = dict(f.arguments)
+    args[vname] = (vshape, vdtype)
+    return (f.shape + vshape, complex if vdtype == complex else f.dtype, args, vname, vshape, vdtype)
+
+
+def derivative(varkind):
+    """small concrete family: f = u_i g_j with u:(2,) float, g:(3,) float; var in several spellings incl. wrong shapes/dtypes"""
+    from nutils import function
+    u = function.Argument('u', (2,), float)
+    g = function.Argument('g', (3,), float)
+    c = function.Argument('c', (), complex)
+    n = function.Argument('n', (2,), int)
+    A = function.Argument
+    for f in (u[:, numpy.newaxis] * g[numpy.newaxis, :] * n[0], u[:, numpy.newaxis] * g[numpy.newaxis, :] * c * n[0]):
+        if not _derivative_family(function, f, varkind, u, g, A):
+            return
+    print('REPLAY: not reproduced')
+
+
+def _derivative_family(function, f, varkind, u, g, A):
+    family = {'name': ['u', 'g', 'zz', 'c', 'n'], 'argument': [A('c', (), complex), A('c', (), float), A('n', (2,), int), A('u', (2,), float), A('g', (3,), float), A('u', (3,), float), A('u', (2,), complex), A('g', (3, 1), float), A('w', (4, 5), complex), A('w', (), float)],
+              'other': [3, None, 1.5]}[varkind]
+    for var in family:
+        want = _expect_derivative(function, f, var)
+        what = 'derivative(u_i g_j, %s)' % (var if not isinstance(var, A) else 'Argument(%r, %r, %s)' % (var.name, var.shape, var.dtype.__name__),)
+        try:
+            d = function.derivative(f, var)
+        except ValueError as e:
+            if want != ('raise',):
+                print('%s raised ValueError: %s' % (what, e))
+                print('REPLAY: VIOLATION-CONFIRMED a valid derivative target is rejected')
+                return False
+            continue
+        except Exception as e:
+            print('%s raised %s: %s' % (what, type(e).__name__, e))
+            print('REPLAY: VIOLATION-CONFIRMED derivative raised %s instead of ValueError' % type(e).__name__)
+            return False
+        if want == ('raise',):
+            print('%s accepted: shape %r arguments %r' % (what, d.shape, dict(d.arguments)))
+            print('REPLAY: VIOLATION-CONFIRMED an inconsistent derivative target is accepted')
+            return False
+        ev = d._eval_var
+        got = (d.shape, d.dtype, dict(d.arguments), ev.name, tuple(int(n.__index__()) for n in ev.shape), ev.dtype)
+        if got != want or d.spaces != f.spaces:
+            print('%s announces %r, expected %r' % (what, got, want))
+            print('REPLAY: VIOLATION-CONFIRMED derivative announces the wrong shape/dtype/arguments/target')
+            return False
+        # the derivative evaluates to the analytic one (f is bilinear)
+        if ev.name in ('u', 'g') and ev.dtype == float:
+            uv, gv = numpy.array([1., 2.]), numpy.array([3., 5., 7.])
+            val = function.eval(d, arguments=dict(u=uv, g=gv, c=1., n=numpy.array([1, 0])))
+            ref = numpy.einsum('ik,j->ijk', numpy.eye(2), gv) if ev.name == 'u' else numpy.einsum('i,jk->ijk', uv, numpy.eye(3))
+            if val.shape != ref.shape or not numpy.allclose(val, ref):
+                print('%s evaluates to\n%r\nexpected\n%r' % (what, val, ref))
+                print('REPLAY: VIOLATION-CONFIRMED derivative evaluates to the wrong array')
+                return False
+    return True
+
+
+def linearize(spelling, valkind):
+    """f = u_i g_j; linearize(f, u:v) in the given spelling must have shape (2, 3), arguments u, g, v:(2,) float and evaluate to v_i g_j"""
+    from nutils import function
+    u = function.Argument('u', (2,), float)
+    g = function.Argument('g', (3,), float)
+    f = u[:, numpy.newaxis] * g[numpy.newaxis, :]
+    for key, new in (('u', 'v'), ('g', 'h'), ('u', 'g'), ('g', 'u')):
+        shape, dtype = f.arguments[key]
+        val = new if valkind == 'name' else function.Argument(new, shape, dtype)
+        spec = {'dict': lambda: {key: val}, 'pairs': lambda: [(key, val)], 'str': lambda: '%s:%s' % (key, val), 'strs': lambda: ('%s:%s' % (key, val),)}[spelling]()
+        clash = new in f.arguments and f.arguments[new] != (shape, dtype)
+        try:
+            lin = function.linearize(f, spec)
+        except ValueError as e:
+            if not clash:
+                print('linearize(u_i g_j, %r) raised ValueError: %s' % (spec, e))
+                print('REPLAY: VIOLATION-CONFIRMED a valid linearization is rejected')
+                return
+            continue
+        except Exception as e:
+            print('linearize(u_i g_j, %r) raised %s: %s' % (spec, type(e).__name__, e))
+            print('REPLAY: VIOLATION-CONFIRMED linearize raised %s' % type(e).__name__)
+            return
+        want = dict(f.arguments)
+        want[new] = (shape, dtype)
+        if clash or lin.shape != f.shape or dict(lin.arguments) != want or lin.dtype != float or lin.spaces != f.spaces:
+            print('linearize(u_i g_j, %r): shape %r dtype %s arguments %r; expected shape %r arguments %r' % (spec, lin.shape, lin.dtype, dict(lin.arguments), f.shape, want))
+            print('REPLAY: VIOLATION-CONFIRMED linearize announces the wrong shape/arguments')
+            return
+        vals = dict(u=numpy.array([1., 2.]), g=numpy.array([3., 5., 7.]))
+        dirv = numpy.array([.5, -1.]) if key == 'u' else numpy.array([2., 0., -1.])
+        if new not in vals:
+            vals[new] = dirv
+        else:
+            dirv = vals[new]
+        got = function.eval(lin, arguments=vals)
+        ref = dirv[:, None] * vals['g'][None, :] if key == 'u' else vals['u'][:, None] * dirv[None, :]
+        if not numpy.allclose(got, ref):
+            print('linearize(u_i g_j, %r) evaluates to\n%r\nexpected the directional derivative\n%r' % (spec, got, ref))
+            print('REPLAY: VIOLATION-CONFIRMED linearize is not the directional derivative')
+            return
+    print('REPLAY: not reproduced')
+
+
+def argument_shape_check():
+    """evaluable.Argument('u', (2, 3)): supplied values of another shape (also broadcastable ones) must raise ValueError, the right shape is returned unchanged"""
+    from nutils import evaluable as ev
+    for dtype in (float, int):
+        u = ev.Argument('u', (ev.constant(2), ev.constant(3)), dtype)
+        f = ev.compile(u, _simplify=False, _optimize=False)
+        good = numpy.arange(6).reshape(2, 3).astype(dtype)
+        try:
+            r = f(dict(u=good, v=numpy.zeros((4,))))
+        except Exception as e:
+            print('a value of the declared shape raised %s: %s' % (type(e).__name__, e))
+            print('REPLAY: VIOLATION-CONFIRMED a value of the right shape is rejected')
+            return
+        if numpy.shape(r) != (2, 3) or not (numpy.asarray(r) == good).all():
+            print('REPLAY: VIOLATION-CONFIRMED the supplied value %r came back as %r' % (good, r))
+            return
+        for bad in (numpy.zeros((3,), dtype), numpy.zeros((1, 3), dtype), numpy.zeros((2, 1), dtype), numpy.zeros((), dtype), numpy.zeros((2, 3, 1), dtype), numpy.zeros((1, 2, 3), dtype), numpy.zeros((3, 2), dtype), numpy.zeros((2, 4), dtype), [1, 2, 3], 5):
+            try:
+                r = f(dict(u=bad))
+            except ValueError:
+                continue
+            except Exception as e:
+                print('a value of shape %r for an argument of shape (2, 3) raised %s: %s' % (numpy.shape(bad), type(e).__name__, e))
+                print('REPLAY: VIOLATION-CONFIRMED wrong shape raises %s instead of ValueError' % type(e).__name__)
+                return
+            print('a value of shape %r was accepted for an argument of shape (2, 3); result has shape %r' % (numpy.shape(bad), numpy.shape(r)))
+            print('REPLAY: VIOLATION-CONFIRMED a value of the wrong shape is accepted')
+            return
+    print('REPLAY: not reproduced')
+
+
+def _ev_targets():
+    from nutils import evaluable as ev
+    u = ev.Argument('u', (ev.constant(2),), float)
+    w = ev.Argument('w', (ev.constant(2),), float)
+    x = ev.Sin(u)
+    targets = {'T1': u, 'T2': ev.Power(u, w), 'T3': ev.Power(x, x), 'T4': ev.Power(ev.Sin(u), u), 'T5': ev.Tuple((ev.Power(u, w), ev.Power(w, u)))}
+    num = {'T1': lambda U, W: U, 'T2': lambda U, W: U**W, 'T3': lambda U, W: numpy.sin(U)**numpy.sin(U), 'T4': lambda U, W: numpy.sin(U)**U, 'T5': lambda U, W: (U**W, W**U)}
+    return ev, u, w, targets, num
+
+
+def _close(a, b):
+    if isinstance(a, tuple) or isinstance(b, tuple):
+        return len(a) == len(b) and all(_close(x, y) for x, y in zip(a, b))
+    return numpy.shape(a) == numpy.shape(b) and numpy.allclose(a, b)
+
+
+def _all_objects(obj, seen):
+    from nutils import _util
+    if id(obj) in seen:
+        return seen
+    seen[id(obj)] = obj
+    red = _util._reduce(obj)
+    if red:
+        for a in red[1]:
+            _all_objects(a, seen)
+    return seen
+
+
+def ev_replace_arguments(target):
+    """chains and swaps on small real DAGs: the result must evaluate to f with the replaced values (simultaneously), wrong dtypes/shapes must be refused"""
+    ev, u, w, targets, num = _ev_targets()
+    W0 = numpy.array([.3, .7])
+    U0 = numpy.array([1.5, .4])
+    five = ev.constant(numpy.array([5., 6.]))
+    for T in ([target] if target in targets else []) + [t for t in targets if t != target]:
+        f = targets[T]
+        cases = [({'u': ev.Cos(w), 'w': five}, lambda: num[T](numpy.cos(W0), numpy.array([5., 6.])), 'chain u:cos(w), w:const (simultaneous)'),
+                 ({'u': w, 'w': u}, lambda: num[T](W0, U0), 'swap u:w, w:u'),
+                 ({'zz': five}, lambda: num[T](U0, W0), 'foreign name only')]
+        for arguments, want, what in cases:
+            try:
+                r = ev.replace_arguments(f, arguments)
+                got = ev.eval_once(r, arguments=dict(u=U0, w=W0))
+            except Exception as e:
+                print('%s: replace_arguments(%s) raised %s: %s' % (T, what, type(e).__name__, e))
+                print('REPLAY: VIOLATION-CONFIRMED a consistent replacement raises')
+                return
+            if not _close(got, want()):
+                print('%s: replace_arguments(%s) evaluates to %r, the definition gives %r' % (T, what, got, want()))
+                print('REPLAY: VIOLATION-CONFIRMED the replaced expression does not evaluate to f at the replaced values')
+                return
+            reps = [v for v in arguments.values() if not isinstance(v, ev.Argument)]
+            objs = _all_objects(r, {})
+            present = set(a.name for a in f.arguments)
+            if not all(id(v) in objs for k, v in arguments.items() if k in present and not isinstance(v, ev.Argument)):
+                print('%s: replace_arguments(%s): the replacement object is not part of the result (it was rebuilt)' % (T, what))
+                print('REPLAY: VIOLATION-CONFIRMED replacements are entered again')
+                return
+        if T == 'T3':
+            r = ev.replace_arguments(f, {'u': ev.Cos(w)})
+            if r.dependencies[0] is not r.dependencies[1]:
+                print('REPLAY: VIOLATION-CONFIRMED the shared subexpression of T3 is rebuilt twice')
+                return
+        for bad, what in ((ev.constant(numpy.array([1, 2])), 'an int array for a float argument'), (ev.constant(numpy.array([1., 2., 3.])), 'shape (3,) for an argument of shape (2,)')):
+            try:
+                r = ev.replace_arguments(f, {'u': bad})
+            except (AssertionError, ValueError):
+                continue
+            except Exception as e:
+                print('%s: replacing u by %s raised %s' % (T, what, type(e).__name__))
+                print('REPLAY: VIOLATION-CONFIRMED unexpected exception type')
+                return
+            print('%s: replacing u by %s is accepted: %r' % (T, what, r))
+            print('REPLAY: VIOLATION-CONFIRMED a replacement of the wrong dtype/shape is accepted')
+            return
+    print('REPLAY: not reproduced')
+
+
+def shallow_replace(target):
+    """util.shallow_replace with a counting callable on small real DAGs: once per object, sharing preserved, children in order"""
+    from nutils import _util
+    ev, u, w, targets, num = _ev_targets()
+    U0, W0 = numpy.array([1.5, .4]), numpy.array([.3, .7])
+    for T, f in targets.items():
+        for hit in (lambda o: None, lambda o: ev.Cos(o) if o is u else None, lambda o: ev.constant(numpy.array([2., 3.])) if isinstance(o, ev.Sin) else None):
+            calls = {}
+            made = {}
+
+            def func(obj, extra):
+                assert extra == 'extra'
+                calls[id(obj)] = calls.get(id(obj), 0) + 1
+                r = hit(obj)
+                if r is not None:
+                    made[id(obj)] = r
+                return r
+            try:
+                r = _util.shallow_replace(func, f, 'extra')
+            except Exception as e:
+                print('%s: shallow_replace raised %s: %s' % (T, type(e).__name__, e))
+                print('REPLAY: VIOLATION-CONFIRMED shallow_replace raises')
+                return
+            objs = _all_objects(f, {})
+            # irreducible objects the callable declines (str, type, ...) are not memoised: they are visited per occurrence
+            counted = [n for i, n in calls.items() if i in objs and (_util._reduce(objs[i]) or i in made)]
+            if counted and max(counted) > 1:
+                print('%s: the callable was applied %d times to one node' % (T, max(counted)))
+                print('REPLAY: VIOLATION-CONFIRMED no memoisation: an object is processed more than once')
+                return
+            if T == 'T3' and r.dependencies[0] is not r.dependencies[1]:
+                print('REPLAY: VIOLATION-CONFIRMED the shared subexpression of T3 is rebuilt twice')
+                return
+            Ur = numpy.cos(U0) if id(u) in made else U0
+            sin = (lambda x: numpy.array([2., 3.])) if any(isinstance(o, ev.Sin) for o in _all_objects(f, {}).values()) and hit(ev.Sin(u)) is not None else numpy.sin
+            want = {'T1': lambda: Ur, 'T2': lambda: Ur**W0, 'T3': lambda: sin(Ur)**sin(Ur), 'T4': lambda: sin(Ur)**Ur, 'T5': lambda: (Ur**W0, W0**Ur)}[T]()
+            got = ev.eval_once(r, arguments=dict(u=U0, w=W0))
+            if not _close(got, want):
+                print('%s: shallow_replace result evaluates to %r, expected %r' % (T, got, want))
+                print('REPLAY: VIOLATION-CONFIRMED the rebuilt expression differs from the definition (children out of order or replacement missed)')
+                return
+    print('REPLAY: not reproduced')
+
+
+def zero_all_arguments(target):
+    ev, u, w, targets, num = _ev_targets()
+    n = ev.Argument('n', (ev.constant(2),), int)
+    targets = dict(targets, Tn=ev.Tuple((u, n)))
+    num = dict(num, Tn=lambda U, W: (U, numpy.zeros(2, int)))
+    Z = numpy.zeros(2)
+    for T, f in targets.items():
+        r = ev.zero_all_arguments(f)
+        if r.arguments:
+            print('%s: zero_all_arguments leaves the arguments %r' % (T, sorted(a.name for a in r.arguments)))
+            print('REPLAY: VIOLATION-CONFIRMED not every argument is zeroed')
+            return
+        with numpy.errstate(all='ignore'):
+            got, want = ev.eval_once(r), num[T](Z, Z)
+        if not _close(numpy.nan_to_num(got) if not isinstance(got, tuple) else tuple(map(numpy.nan_to_num, got)), numpy.nan_to_num(want) if not isinstance(want, tuple) else tuple(map(numpy.nan_to_num, want))):
+            print('%s: zero_all_arguments evaluates to %r, f(0) is %r' % (T, got, want))
+            print('REPLAY: VIOLATION-CONFIRMED zero_all_arguments(f) is not f at zero')
+            return
+    print('REPLAY: not reproduced')
+
+
+def _degree_instances():
+    """class name -> list of (description, node, argument, line(t) -> argument value); the true degree is measured by finite differences"""
+    from nutils import evaluable as ev
+    c = ev.constant
+    u = ev.Argument('u', (c(3),), float)
+    u6 = ev.Argument('u6', (c(6),), float)
+    n = ev.Argument('n', (), int)
+    a3, b3 = numpy.array([.3, -1.2, .8]), numpy.array([1.1, .7, -.4])
+    a6, b6 = numpy.arange(6) * .3 - .5, numpy.array([1., -2., .5, .25, 3., -1.])
+    lu = lambda t: {'u': a3 + t * b3}
+    lu6 = lambda t: {'u6': a6 + t * b6}
+    ln = lambda t: {'n': numpy.array(int(t))}
+    sq = u * u
+    tab = c(numpy.array([1., 4., 10., 19., 33., 60., 99., 150.]))
+    i = ev.loop_index('i', c(3))
+    I = {}
+    I['Argument'] = [('u', u, u, lu)]
+    I['Multiply'] = [('u*u*u', sq * u, u, lu), ('u*u', sq, u, lu)]
+    I['Add'] = [('u*u + u', sq + u, u, lu), ('u + u*u*u', u + sq * u, u, lu)]
+    I['Power'] = [('u**3', ev.power(u, 3.), u, lu), ('(u*u)**2', ev.power(sq, 2.), u, lu), ('(u**2)**1.25', ev.power(ev.power(u, 2.), 1.25), u, lu), ('(u*u)**3', ev.power(sq, 3.), u, lu), ('u**-2', ev.power(u, -2.), u, lu), ('2**sum(u)', ev.power(2., ev.Sum(u)), u, lu)]
+    I['Take'] = [('(u*u)[[0,2]]', ev.Take(sq, c(numpy.array([0, 2]))), u, lu), ('table[n]', ev.Take(tab, n), n, ln)]
+    I['Inflate'] = [('inflate(u*u)', ev.Inflate(sq, c(numpy.array([0, 2, 4])), c(5)), u, lu), ('inflate(table[:3], [0,1,2]*n, 8)', ev.Inflate(c(numpy.array([1., 2., 3.])), c(numpy.array([0, 1, 2])) * n, c(8)), n, ln)]
+    I['Sum'] = [('sum(u*u)', ev.Sum(sq), u, lu)]
+    I['InsertAxis'] = [('insertaxis(u*u, 2)', ev.InsertAxis(sq, c(2)), u, lu)]
+    I['Transpose'] = [('transpose(insertaxis(u*u*u))', ev.Transpose(ev.InsertAxis(sq * u, c(2)), (1, 0)), u, lu)]
+    I['Diagonalize'] = [('diagonalize(u*u)', ev.Diagonalize(sq), u, lu)]
+    I['TakeDiag'] = [('takediag(diagonalize(u*u))', ev.TakeDiag(ev.Diagonalize(sq)), u, lu)]
+    I['Ravel'] = [('ravel(insertaxis(u*u, 2))', ev.Ravel(ev.InsertAxis(sq, c(2))), u, lu)]
+    I['Unravel'] = [('unravel(u6*u6, 2, 3)', ev.Unravel(u6 * u6, c(2), c(3)), u6, lu6)]
+    I['LoopSum'] = [('loop_sum(u*u*i)', ev.loop_sum(sq * ev.astype(i, float) if hasattr(ev, 'astype') else sq, i), u, lu)]
+    I['LoopConcatenate'] = [('loop_concatenate(u*u)', ev.loop_concatenate(sq, i), u, lu)]
+    idx = c(numpy.array([0, 2, 1]))
+    I['Monomial'] = [('Monomial(v, (u, u, u))', ev.Monomial(c(numpy.array([2., -1., .5])), (u, u, u), ((idx,), (idx,), (idx,)), (3, 2, 1)), u, lu),
+                     ('Monomial(u, (u,))', ev.Monomial(u, (u,), ((idx,),), (1,)), u, lu)]
+    return ev, I
+
+
+def argument_degree_rules(clsname):
+    """every announced degree must annihilate the finite differences of that order + 1 along a line in the argument"""
+    ev, I = _degree_instances()
+    names = ([clsname] if clsname in I else []) + [k for k in I if k != clsname]
+    for k in names:
+        for what, node, arg, line in I[k]:
+            try:
+                d = node.argument_degree(arg)
+            except ev.NotPolynomal:
+                continue
+            except Exception as e:
+                print('%s: argument_degree of %s raised %s: %s' % (k, what, type(e).__name__, e))
+                print('REPLAY: VIOLATION-CONFIRMED argument_degree raises %s' % type(e).__name__)
+                return
+            if not isinstance(d, int) or d < 0:
+                print('REPLAY: VIOLATION-CONFIRMED %s: argument_degree of %s is %r' % (k, what, d))
+                return
+            f = ev.compile(node)
+            with numpy.errstate(all='ignore'):
+                vals = numpy.array([numpy.asarray(f(line(t)), dtype=float) for t in range(d + 2)])
+            fd = numpy.diff(vals, n=d + 1, axis=0)
+            scale = max(1., abs(vals).max())
+            if not numpy.all(numpy.isfinite(fd)) or abs(fd).max() > 1e-7 * scale:
+                print('%s: %s announces degree %d in %r, but its difference of order %d along a line does not vanish (%.3g): the true degree is larger or it is not polynomial' % (k, what, d, arg.name, d + 1, abs(fd).max()))
+                print('REPLAY: VIOLATION-CONFIRMED argument_degree is not an upper bound of the true degree')
+                return
+    # the wrapper: a constant is of degree 0, a declined rule raises NotPolynomal
+    ev2, I2 = ev, I
+    u = I['Argument'][0][1]
+    if ev.constant(numpy.array([1., 2., 3.])).argument_degree(u) != 0:
+        print('REPLAY: VIOLATION-CONFIRMED a constant does not have degree 0')
+        return
+    try:
+        d = ev.Sin(u).argument_degree(u)
+        print('REPLAY: VIOLATION-CONFIRMED sin(u) announces degree %r instead of raising NotPolynomal' % (d,))
+        return
+    except ev.NotPolynomal:
+        pass
+    try:
+        if (u * u).argument_degree(u) != 2 or ev.Take(ev.constant(numpy.array([1., 2.])), ev.constant(1)).argument_degree(u) != 0:
+            raise AssertionError
+    except Exception as e:
+        print('REPLAY: VIOLATION-CONFIRMED the degree of u*u / of a constant is not delivered (%s)' % type(e).__name__)
+        return
+    print('REPLAY: not reproduced')
+
+
+def field(which):
+    """field/dotarg on small concrete arrays: the created argument, the announced table, the shape and the value (repeated tensordot over the first axes)"""
+    from nutils import function
+    f = getattr(function, which)
+    p = function.Argument('p', (4,), float)
+    pv = numpy.array([2., -1., .5, 3.])
+    m0, m1, v0 = numpy.arange(6.).reshape(2, 3) - 2, numpy.arange(8.).reshape(4, 2) + 1, numpy.array([1., -2., 4.])
+    cases = [((), (), (5,), float), (((m0, 0),), (), (), float), (((v0, 1),), (), (2,), float), (((m0, 0), (m1, 2)), (), (5,), float), (((v0, 3), (m1, 0)), (), (), float), (((m0, 1),), (), (2,), complex)]
+    rng = numpy.random.RandomState(3)
+    for arrs, _, shape, dtype in cases:
+        arrays = [function.Array.cast(a) * p[k] for a, k in arrs]
+        nums = [a * pv[k] for a, k in arrs]
+        what = '%s("u", %s, shape=%r, dtype=%s)' % (which, ', '.join('array%r' % (a.shape,) for a in arrays), shape, dtype.__name__)
+        try:
+            r = f('u', *arrays, shape=shape, dtype=dtype)
+        except Exception as e:
+            print('%s raised %s: %s' % (what, type(e).__name__, e))
+            print('REPLAY: VIOLATION-CONFIRMED a valid field raises')
+            return
+        ashape = tuple(a.shape[0] for a in arrays) + shape
+        wantargs = {'u': (ashape, dtype)}
+        if arrays:
+            wantargs['p'] = ((4,), float)
+        wantshape = shape + sum((a.shape[1:] for a in arrays), ())
+        if r.shape != wantshape or dict(r.arguments) != wantargs:
+            print('%s: shape %r arguments %r, expected shape %r arguments %r' % (what, r.shape, dict(r.arguments), wantshape, wantargs))
+            print('REPLAY: VIOLATION-CONFIRMED field announces the wrong shape or arguments')
+            return
+        uv = rng.rand(*ashape).astype(dtype)
+        ref = uv
+        for a in nums:
+            ref = numpy.tensordot(ref, a, axes=([0], [0]))
+        got = function.eval(r, arguments=dict(u=uv, p=pv))
+        if numpy.shape(got) != numpy.shape(ref) or not numpy.allclose(got, ref):
+            print('%s evaluates to\n%r\nthe inner product over the first axes is\n%r' % (what, got, ref))
+            print('REPLAY: VIOLATION-CONFIRMED field is not the inner product with the first axes of the arrays')
+            return
+    try:
+        f('p', function.Array.cast(m0) * p[0])
+        print('REPLAY: VIOLATION-CONFIRMED a field named like an argument of its array with another shape is accepted')
+        return
+    except ValueError:
+        pass
+    print('REPLAY: not reproduced')
